@@ -779,6 +779,13 @@ def execute(sc):
         failed = exc is not None or rc not in (0, None)
         after = w.snap(out_rel)
         core.bump(res['ops'], 'build')
+        if sc.get('dense'):
+            core.bump(res['probes'], 'dense-project')
+        if any(it.get('alias') for f in [sc['main']] + sc['pkgs']
+               for it in f['items']):
+            core.bump(res['probes'], 'one-file-under-two-require-names')
+        if any(';' in p_['name'] for p_ in sc['pkgs']):
+            core.bump(res['probes'], 'load-path-separator-in-a-package-name')
         shape = _shape(sc)
         outcome = 'ok'
         if isinstance(exc, world.SimStepCap):
